@@ -12,7 +12,8 @@ np.seterr(all="ignore")
 warnings.filterwarnings("ignore")
 
 THEOREMS = ["Yaw.C16.random_sizes", "Yaw.C16.random_full_chunks", "Yaw.C16.reseed_history_free",
-            "Yaw.C16.window_of_monotone", "Yaw.C16.joint_attributes", "Yaw.C16.glue_pinned"]
+            "Yaw.C16.window_of_monotone", "Yaw.C16.joint_attributes", "Yaw.C16.glue_pinned", "Yaw.C16.seed_invariant",
+            "Yaw.C16.reproducible_after_any_use", "Yaw.C16.flags"]
 RULE = ("BoxRandoms over windows incl. both poles, the full sphere and thin strips x requested sizes around multiples "
         "of the chunk size x seeds x attribute arrays: chunk sizes of a pass (EXACT vs model), total size of "
         "RandomReader passes and of Catalog.from_random (centres and patch_num modes), every point inside the window "
@@ -26,7 +27,7 @@ def run(prop, tier, seed, replay):
     from yaw.catalog.readers import RandomReader
     from yaw.randoms import BoxRandoms
 
-    ck = Check(prop, tier, seed, kernels=["k_reader"], theorems=THEOREMS, lean_modules=["YawVerif.Props.C16"], rule=RULE,
+    ck = Check(prop, tier, seed, kernels=["k_reader", "k_randoms"], theorems=THEOREMS, lean_modules=["YawVerif.Props.C16"], rule=RULE,
                assumptions=["numpy Generator.uniform / integers are uniform and reproducible from their seed",
                             "np.arcsin / np.sin are monotone to within 1 ulp"])
     ck.translate()
